@@ -230,3 +230,166 @@ Proof.
   rewrite Hu. rewrite max0_id by (apply Forall_unitv; lia).
   rewrite sumZ_unitv by auto. split; auto.
 Qed.
+
+(* ==== descending sources: interp1d sorts, i.e. the model reverses ============================ *)
+Lemma desc_cons a b l : desc (a :: b :: l) = true <-> b < a /\ desc (b :: l) = true.
+Proof.
+  unfold desc. cbn [diffs forallb]. rewrite andb_true_iff, Z.ltb_lt.
+  split; intros [H1 H2]; split; auto; lia.
+Qed.
+Lemma last_cons2 (a b : Z) l : last (a :: b :: l) 0 = last (b :: l) 0.
+Proof. reflexivity. Qed.
+Lemma asc_snoc : forall l a, asc l = true -> (l <> [] -> last l 0 < a) -> asc (l ++ [a]) = true.
+Proof.
+  induction l as [|b l IH]; intros a Ha Hl; [reflexivity|].
+  destruct l as [|c l].
+  - cbn [app]. apply asc_cons. split; [apply Hl; congruence | reflexivity].
+  - apply asc_cons in Ha as [Hbc Ha]. change ((b :: c :: l) ++ [a]) with (b :: (c :: (l ++ [a]))).
+    apply asc_cons. split; [exact Hbc|]. apply (IH a Ha). intros _. rewrite last_cons2 in Hl.
+    apply Hl. congruence.
+Qed.
+Lemma last_rev (l : list Z) : last (rev l) 0 = hd 0 l.
+Proof. destruct l as [|a l]; [reflexivity|]. cbn [rev hd]. apply last_last. Qed.
+Lemma hd_rev : forall (l : list Z), hd 0 (rev l) = last l 0.
+Proof.
+  induction l as [|a l IH]; [reflexivity|]. cbn [rev]. destruct l as [|b l]; [reflexivity|].
+  rewrite last_cons2, <- IH. destruct (rev (b :: l)) eqn:E; [|reflexivity].
+  apply (f_equal (@length Z)) in E. rewrite rev_length in E. discriminate.
+Qed.
+Lemma desc_rev_asc : forall l, desc l = true -> asc (rev l) = true.
+Proof.
+  induction l as [|a l IH]; intros H; [reflexivity|]. cbn [rev].
+  destruct l as [|b l]; [reflexivity|].
+  apply desc_cons in H as [Hba H]. apply asc_snoc; [apply IH; exact H|].
+  intros _. rewrite last_rev. cbn [hd]. exact Hba.
+Qed.
+
+Lemma asc_hd_le_last l : asc l = true -> hd 0 l <= last l 0.
+Proof.
+  destruct l as [|a l]; [cbn; lia|]. intros H. destruct l as [|b l]; [cbn; lia|].
+  pose proof (asc_lt_tail _ _ H) as F. rewrite Forall_forall in F. cbn [hd]. rewrite last_cons2.
+  apply Z.lt_le_incl, F.
+  rewrite (app_removelast_last 0 (l := b :: l)) at 2 by congruence.
+  apply in_or_app. right. left. reflexivity.
+Qed.
+
+Lemma sumZ_app a b : sumZ (a ++ b) = sumZ a + sumZ b.
+Proof. induction a; cbn [app sumZ]; lia. Qed.
+Lemma sumZ_rev l : sumZ (rev l) = sumZ l.
+Proof. induction l; cbn [rev sumZ]; auto. rewrite sumZ_app. cbn [sumZ]. lia. Qed.
+Lemma dot_app : forall a b a' b', length a = length b ->
+  dot (a ++ a') (b ++ b') = dot a b + dot a' b'.
+Proof.
+  induction a as [|x a IH]; intros [|y b] a' b' H; cbn [length] in H; try lia; cbn [app dot]; [lia|].
+  rewrite IH by lia. lia.
+Qed.
+Lemma dot_rev : forall a b, length a = length b -> dot (rev a) (rev b) = dot a b.
+Proof.
+  induction a as [|x a IH]; intros [|y b] H; cbn [length] in H; try lia; [reflexivity|].
+  cbn [rev]. rewrite dot_app by (rewrite !rev_length; lia). rewrite IH by lia. cbn [dot]. lia.
+Qed.
+
+Lemma rev_repeat0 n : rev (repeat 0 n) = repeat 0 n.
+Proof.
+  induction n; [reflexivity|]. cbn [repeat rev]. rewrite IHn. symmetry. apply repeat_cons.
+Qed.
+Lemma unitv_last : forall n d, unitv n (S n) d = repeat 0 n ++ [d].
+Proof. induction n; intros d; [reflexivity|]. change (unitv (S n) (S (S n)) d) with (0 :: unitv n (S n) d). rewrite IHn. reflexivity. Qed.
+Lemma unitv_snoc : forall n k d, (k < n)%nat -> unitv k n d ++ [0] = unitv k (S n) d.
+Proof.
+  induction n as [|n IH]; intros k d H; [lia|]. destruct k as [|k].
+  - change (unitv 0 (S n) d) with (d :: repeat 0 n). change (unitv 0 (S (S n)) d) with (d :: repeat 0 (S n)).
+    cbn [app]. f_equal. symmetry. apply (repeat_cons n 0).
+  - change (unitv (S k) (S n) d) with (0 :: unitv k n d).
+    change (unitv (S k) (S (S n)) d) with (0 :: unitv k (S n) d). cbn [app]. f_equal. apply IH. lia.
+Qed.
+Lemma rev_unitv : forall n k d, (k < n)%nat -> rev (unitv k n d) = unitv (n - 1 - k) n d.
+Proof.
+  induction n as [|n IH]; intros k d H; [lia|]. destruct k as [|k].
+  - change (unitv 0 (S n) d) with (d :: repeat 0 n). cbn [rev]. rewrite rev_repeat0.
+    replace (S n - 1 - 0)%nat with n by lia. symmetry. apply unitv_last.
+  - change (unitv (S k) (S n) d) with (0 :: unitv k n d). cbn [rev]. rewrite IH by lia.
+    replace (S n - 1 - S k)%nat with (n - 1 - k)%nat by lia. apply unitv_snoc. lia.
+Qed.
+
+Lemma impl_weights_desc e xs x : desc xs = true -> (2 <= length xs)%nat ->
+  impl_weights e xs x =
+  if e then Some (rev (fst (hat x (rev xs))), snd (hat x (rev xs)))
+  else Some (map (Z.max 0) (rev (fst (hat x (rev xs)))),
+             sumZ (map (Z.max 0) (rev (fst (hat x (rev xs)))))).
+Proof.
+  intros Hd Hl. unfold impl_weights. rewrite Hd.
+  destruct xs as [|a [|b l]]; cbn [length] in Hl; try lia.
+  destruct (hat x (rev (a :: b :: l))) as [w d]. destruct e; reflexivity.
+Qed.
+
+
+Lemma weights_sum_one_both e xs x w d : mono xs -> (2 <= length xs)%nat ->
+  impl_weights e xs x = Some (w, d) -> sumZ w = d /\ 0 < d /\ length w = length xs.
+Proof.
+  intros [Ha | Hd] Hl H; [eapply weights_sum_one; eauto|].
+  rewrite impl_weights_desc in H by auto.
+  pose proof (desc_rev_asc _ Hd) as Ha.
+  destruct (hat_props (rev xs) x Ha ltac:(rewrite rev_length; lia)) as (H1 & H2 & H3 & _).
+  rewrite rev_length in H3.
+  destruct e; injection H as <- <-; repeat split; auto.
+  - rewrite sumZ_rev. auto.
+  - rewrite rev_length. auto.
+  - pose proof (sum_max0_ge (rev (fst (hat x (rev xs))))). rewrite sumZ_rev in *. lia.
+  - rewrite map_length, rev_length. auto.
+Qed.
+
+Lemma weights_nonneg_both xs x w d : mono xs -> (2 <= length xs)%nat ->
+  impl_weights false xs x = Some (w, d) -> Forall (fun n => 0 <= n) w.
+Proof.
+  intros [Ha | Hd] Hl H; [eapply weights_nonneg; eauto|].
+  rewrite impl_weights_desc in H by auto. injection H as <- <-. apply Forall_max0.
+Qed.
+
+Lemma weights_linear_exact_both e xs x w d a b : mono xs -> (2 <= length xs)%nat ->
+  (e = true \/ lo_of xs <= x <= hi_of xs) ->
+  impl_weights e xs x = Some (w, d) ->
+  dot w (map (fun c => a * c + b) xs) = d * (a * x + b).
+Proof.
+  unfold lo_of, hi_of. intros [Ha | Hd] Hl Hr H.
+  - pose proof (asc_hd_le_last _ Ha).
+    apply (weights_linear_exact e xs x w d a b Ha Hl); [|exact H].
+    destruct Hr as [Hr | Hr]; [left; auto | right; lia].
+  - pose proof (desc_rev_asc _ Hd) as Ha. pose proof (asc_hd_le_last _ Ha) as Hle.
+    rewrite hd_rev, last_rev in Hle.
+    assert (Hl' : (2 <= length (rev xs))%nat) by (rewrite rev_length; lia).
+    rewrite impl_weights_desc in H by auto.
+    destruct (hat_props (rev xs) x Ha Hl') as (H1 & H2 & H3 & H4).
+    assert (Hraw : dot (rev (fst (hat x (rev xs)))) (map (fun c => a * c + b) xs)
+                   = snd (hat x (rev xs)) * (a * x + b)).
+    { rewrite <- (rev_involutive xs) at 2. rewrite map_rev, dot_rev by (rewrite map_length; auto).
+      rewrite dot_affine by auto. rewrite H4, H1. ring. }
+    destruct e.
+    + injection H as <- <-. exact Hraw.
+    + destruct Hr as [Hr | Hr]; [discriminate|].
+      assert (Hnn : Forall (fun n => 0 <= n) (fst (hat x (rev xs)))).
+      { apply hat_nonneg; auto. rewrite hd_rev, last_rev. lia. }
+      rewrite (max0_id _ (Forall_rev Hnn)) in H. injection H as <- <-.
+      rewrite sumZ_rev, H1. exact Hraw.
+Qed.
+
+Lemma weights_identity_both e xs k w d : mono xs -> (2 <= length xs)%nat -> (k < length xs)%nat ->
+  impl_weights e xs (nth k xs 0) = Some (w, d) -> w = unitv k (length xs) d /\ 0 < d.
+Proof.
+  intros [Ha | Hd] Hl Hk H; [eapply weights_identity; eauto|].
+  pose proof (desc_rev_asc _ Hd) as Ha.
+  assert (Hl' : (2 <= length (rev xs))%nat) by (rewrite rev_length; lia).
+  rewrite impl_weights_desc in H by auto.
+  assert (Hx : nth k xs 0 = nth (length xs - 1 - k) (rev xs) 0).
+  { rewrite rev_nth by lia. f_equal. lia. }
+  rewrite Hx in H.
+  pose proof (hat_knot (rev xs) (length xs - 1 - k) Ha Hl' ltac:(rewrite rev_length; lia)) as Hu.
+  destruct (hat_props (rev xs) (nth (length xs - 1 - k) (rev xs) 0) Ha Hl') as (H1 & H2 & H3 & _).
+  rewrite rev_length in Hu.
+  assert (Hrv : rev (fst (hat (nth (length xs - 1 - k) (rev xs) 0) (rev xs)))
+                = unitv k (length xs) (snd (hat (nth (length xs - 1 - k) (rev xs) 0) (rev xs)))).
+  { rewrite Hu, rev_unitv by lia. f_equal. lia. }
+  destruct e; injection H as <- <-; [split; auto|].
+  rewrite Hrv. rewrite max0_id by (apply Forall_unitv; lia).
+  rewrite sumZ_unitv by auto. split; auto.
+Qed.
